@@ -19,8 +19,8 @@ PASSIVE_UNDER_TESTS = False
 TIER_OVERRIDES = {"quick": {"floor": 100}, "thorough": {"floor": 2000}}
 RULE = ("8-32 threads and 8-64 asyncio tasks (with sub-tasks created inside enabled blocks) each run a random program of nested "
         "enable_free_arithmetics(True/False) blocks, direct setter writes and exceptions raised at every depth; after every step a probe "
-        "compares config.free_arithmetics and the acceptance / refusal of h + array, h * array, h * -c, h / -c, h /= -c, h -= array and "
-        "frequencies = negative with the context's own shadow stack (new thread: environment default, new task: creator's current value); "
+        "compares config.free_arithmetics and the acceptance / refusal of h + array, h * array, h * -c, h / -c, h /= -c, h -= array, "
+        "frequencies = negative and the addition of an operand holding negative contents (same bins and re-binned adaptive addition, +, reflected + and +=) with the context's own shadow stack (new thread: environment default, new task: creator's current value); "
         "sys.setswitchinterval(1e-6) and a sys.monitoring LINE callback on config.py and on the guarded operators sleep(0) so that threads "
         "are pre-empted between set and reset and between reading the switch and acting on it; tasks yield only at their own awaits; "
         "the decorator form (one decorated function shared by all threads, re-entered recursively and concurrently); environment default checked in child processes (PHYST_FREE_ARITHMETICS unset / 0 / 1 / other) from the importing context, a new thread, a fresh Context and a pool worker; a case = one program step with its probe; "
@@ -69,11 +69,27 @@ def make_hist():
     return physt.h1([0.5, 1.5, 1.5, 2.5], np.array([0.0, 1.0, 2.0, 3.0]))
 
 
+_NEGATIVE = []
+
+
+def negative_operand():
+    """A histogram with negative contents, made once (in the main context, before any thread starts) while the switch is on;
+    afterwards it is only read: adding it must be refused wherever the switch is off."""
+    if not _NEGATIVE:
+        import physt
+        from physt.config import config
+
+        b = physt.h1([7, 8, 8], "fixed_width", bin_width=1, adaptive=True)
+        with config.enable_free_arithmetics():
+            _NEGATIVE.append(b * (-3))
+    return _NEGATIVE[0]
+
+
 def probe(rec: core.Recorder, shared: Shared, cid, expected: bool, rng: random.Random, path: str, step: int):
     """Compare the library's view of the switch with the context's own shadow value."""
     from physt.config import config
 
-    kind = rng.choice(["read", "read", "add_array", "mul_array", "mul_neg", "div_neg", "idiv_neg", "set_negative", "isub_array", "read"])
+    kind = rng.choice(["read", "read", "add_array", "mul_array", "mul_neg", "div_neg", "idiv_neg", "set_negative", "isub_array", "read", "add_negative", "add_negative_rebinned"])
     with shared.rec_lock:
         rec.mon("C19.probe")
     conflict = shared.conflicting(cid, expected)
@@ -99,6 +115,19 @@ def probe(rec: core.Recorder, shared: Shared, cid, expected: bool, rng: random.R
                         h / -2
                     elif kind == "idiv_neg":
                         h /= -1.0
+                    elif kind in ("add_negative", "add_negative_rebinned"):
+                        import physt
+
+                        neg = negative_operand()
+                        other = (physt.h1([7, 8, 8], "fixed_width", bin_width=1, adaptive=True) if kind == "add_negative"
+                                 else physt.h1([1, 2, 3, 4], "fixed_width", bin_width=1, adaptive=True))  # other bins: merged on the common grid
+                        how = rng.randrange(3)
+                        if how == 0:
+                            other + neg
+                        elif how == 1:
+                            neg + other
+                        else:
+                            other += neg
                     elif kind == "isub_array":
                         h -= np.ones(3) * 5
                     else:
@@ -438,6 +467,7 @@ def run(ctx):
     rec = ctx.rec
     shared = Shared()
     default = bool(config.free_arithmetics)
+    negative_operand()
     old_interval = sys.getswitchinterval()
     sys.setswitchinterval(1e-6)
     tool = install_yield_injection(shared, ctx.seed * 1000 + ctx.shard)
